@@ -83,14 +83,17 @@ def rand_config(rng, max_size=40, kind_hint=None):
     """Two initial tensors that can interact: T2 shares/conjugates legs of T1."""
     for _ in range(200):
         mods = rng.choice(MOD_CHOICES)
+        if kind_hint is not None and kind_hint % 6 == 4:
+            mods = ()  # profile 4: no charges -> single-block tensors (fast paths), with a pipe partner
         r1 = rng.choice([2, 3, 3])
-        legs1 = [rand_leg(rng, mods) for _ in range(r1)]
+        single = kind_hint is not None and kind_hint % 6 == 4
+        legs1 = [rand_leg(rng, mods, max_blocks=1 if single else 3, max_size=3 if single else 2) for _ in range(r1)]
         if rng.random() < 0.3:
             # make a traceable pair
             legs1[-1] = conj_leg(legs1[0])
         names = ['a', 'b', 'c', 'd']
         labels1 = [[names[i]] if rng.random() < 0.8 else [] for i in range(r1)]
-        kind = rng.random() if kind_hint is None else (0.2, 0.6, 0.9)[kind_hint % 3]
+        kind = rng.random() if kind_hint is None else (0.2, 0.6, 0.9, 0.2, 0.6, 0.9)[kind_hint % 6]
         if kind < 0.4:
             # same legs (add / inner with do_conj / concatenate)
             legs2 = [dict(l) for l in legs1]
@@ -120,6 +123,8 @@ def rand_config(rng, max_size=40, kind_hint=None):
             import itertools
             blocks = [b for b in itertools.product(*[range(len(l['sizes'])) for l in legs1])
                       if make_valid([sum(l['qconj'] * l['charges'][bi][k] for l, bi in zip(legs1, b)) for k in range(len(mods))], mods) == t1['qtotal']]
+            if len(blocks) < 3 and kind_hint is not None:
+                continue  # the "same legs" kind is there to exercise block merging: need several allowed blocks
             if len(blocks) >= 2:
                 rng.shuffle(blocks)
                 t1['missing'] = [blocks[0]] + [b for b in blocks[2:] if rng.random() < 0.2]
@@ -136,7 +141,7 @@ def rand_config(rng, max_size=40, kind_hint=None):
             labels3.append(['f'])
         t3 = rand_tensor(rng, mods, legs3, labels3, rng.random() < 0.3)
         t3['missing'] = []
-        if kind >= 0.4 and rng.random() < 0.4 and r1 >= 2:
+        if r1 >= 2 and ((kind_hint is None and kind >= 0.4 and rng.random() < 0.4) or (kind_hint is not None and kind_hint % 6 in (4, 5))):
             # the partner is T1 with two legs already combined into a pipe (so split_legs is enabled at once)
             g = rng.sample(range(r1), 2)
             t2 = dict(combine_of=0, group=[x + 1 for x in g], qconj=rng.choice([1, -1]))
@@ -248,7 +253,10 @@ def build_array(chinfo, t, dtype=None):
     if dtype != np.complex128:
         dense = dense.real.astype(dtype)
     labels = [render_label(l) for l in t['labels']]
-    return npc.Array.from_ndarray(dense, legs, dtype=dtype, qtotal=np.array(t['qtotal'], dtype=np.int64), labels=labels)
+    a = npc.Array.from_ndarray(dense, legs, dtype=dtype, qtotal=np.array(t['qtotal'], dtype=np.int64), labels=labels)
+    # from_ndarray stores every allowed block; blocks that are entirely zero in the spec tensor are "missing":
+    a.ipurge_zeros(0.)
+    return a
 
 
 def project_leg(leg):
